@@ -70,11 +70,16 @@ impl RegisterAddress {
     /// Deserialize a hex-encoded representation of a `RegisterAddress` to a `RegisterAddress` instance.
     pub fn from_hex(hex: &str) -> Result<Self> {
         let bytes = hex::decode(hex).map_err(|_| Error::HexDeserializeFailed)?;
-        let meta_bytes: [u8; XOR_NAME_LEN] = bytes[..XOR_NAME_LEN]
+        // `get` rather than indexing: the input may decode to fewer bytes than an address has
+        let meta_bytes: [u8; XOR_NAME_LEN] = bytes
+            .get(..XOR_NAME_LEN)
+            .ok_or(Error::HexDeserializeFailed)?
             .try_into()
             .map_err(|_| Error::HexDeserializeFailed)?;
         let meta = XorName(meta_bytes);
-        let owner_bytes: [u8; PK_SIZE] = bytes[XOR_NAME_LEN..]
+        let owner_bytes: [u8; PK_SIZE] = bytes
+            .get(XOR_NAME_LEN..)
+            .ok_or(Error::HexDeserializeFailed)?
             .try_into()
             .map_err(|_| Error::HexDeserializeFailed)?;
         let owner = PublicKey::from_bytes(owner_bytes).map_err(|_| Error::HexDeserializeFailed)?;
